@@ -1,7 +1,55 @@
-(** [MapPollard.Undo] (mirror [mm_undo] of Model/MapMut.v: [undoAdd] -> [undoSingleAdd] /
-    [placeEmptyRoot] / [getWrittenOverEmptyRoots], then [undoDeletion], then the previous roots)
-    restores the tie between the map forest and the reference forest of the state BEFORE the block
-    (property C06).  See the end of the file for the list of theorems. *)
+(** [MapPollard.Undo] (mirror [mm_undo] of Model/MapMut.v: [undoAdd] -> [getWrittenOverEmptyRoots] /
+    [undoSingleAdd] / [placeEmptyRoot], then [undoDeletion], then the previous roots are written
+    back) restores the tie between the map forest and the reference forest of the state BEFORE
+    the block (property C06, map forest).
+
+    The statement is a PRESERVATION theorem about [mm_undo] alone: if the map state [m1] is tied
+    (invariant [UInv], below) to the reference forest AFTER a block, [apply_block s dels adds],
+    then [mm_undo m1 |adds| targets proof dels (roots s)] succeeds and the result is tied to the
+    reference forest [s] BEFORE the block; it remembers what [m1] remembered, minus the added
+    leaves (plus the deleted ones).  Because the hypothesis is the invariant and not "[m1] is the
+    output of [Modify]", the theorem composes: the depth-[k] statement is an induction on the
+    blocks, and the state before the [Undo] may have been pruned, ingested into, ... in between.
+    With the forward theorems of Proofs/MapMutAdd.v ([modify_adds_gen]) it gives the statement
+    "Modify, then Undo, is observationally the identity" ([modify_undo_adds]).
+
+    PROVED HERE (closed under the global context; every [H], [HO] with [ops_ok HO], [hash2] never
+    the empty hash; full and partial forests; every allocated height [ms_total <= 63]; [remap] is
+    not undone: [ms_total] keeps the value it has after the block):
+    - G1 [undo_adds], [undo_adds_consistent]: blocks that only ADD leaves, any number of
+      additions, forests with dead slots and EMPTY ROOTS (which the additions wrote over and
+      [placeEmptyRoot] puts back; [getWrittenOverEmptyRoots] is shown to compute exactly the
+      list the loop consumes: [gwo_adds]);
+    - G4 for blocks of additions [undo_adds_depth]: undoing the last [k] blocks, newest first,
+      restores the invariant of the forest [k] blocks ago;
+    - [modify_undo_adds]: [mm_modify] of a block of additions followed by [mm_undo]:
+      [consistent HO s R m2], same roots, same leaf count, for the [s], [R] before the block;
+    - the general machinery for the rest of [Undo]: [placeEmptyRoot_spec] /
+      [placeEmptyRoot_coords] (what [placeEmptyRoot] does to the two maps, for a deleted position
+      that is a left OR a right child), [pulldown_WInvX] (a subtree that had moved up one row is
+      pulled down again: the weak invariant [WInvX] with a set of exempt coordinates is
+      preserved; this is the step of [undoDeletion] as well as of [undoSingleAdd]).
+    NOT PROVED HERE: blocks with deletions ([undoDeletion]: G2, G3).  The statement for general
+    blocks (R2 = (R1 minus the additions) plus the deleted leaves, which [undoDeletion] caches
+    again) was tested exhaustively on all forests of up to 5 slots (every pattern of dead slots,
+    every remembered set, every deletion set, 0-3 additions with every remember pattern, full
+    and partial, [ms_total = TreeRows] and larger, also after pruning / ingesting between the
+    block and the undo, also on untidy partial forests that store every node) and up to 7 slots
+    for full forests: no counterexample.
+
+    Invariant.  [UInv s R m]: the numeric clauses of [consistent], [NoDup (live s)], no live leaf
+    is the empty hash or a [hash2] image, and [MapMutAdd.GInv] for the view of the layout of [s].
+    [UInv_consistent]: it implies [consistent]; [AddInv_UInv]: [MapMutAdd.Inv] implies it.
+
+    - Part 1-3: a sequence of "pull" moves; [placeEmptyRoot]; regions below the parent of a
+      position in (row, offset) coordinates.
+    - Part 4-6: the weak invariant [WInvX]; the abstract step [pulldown_WInvX]; dropping a node
+      from the view.
+    - Part 7-8: one [undoSingleAdd] over the views [Fh h] of Proofs/MapMutAdd.v, downwards;
+      the loop of [undoAdd].
+    - Part 9-10: the tail of [Undo] ([undoDeletion] of nothing, [put_roots]); [UInv].
+    - Part 11: [getWrittenOverEmptyRoots] = the destroyed roots of Proofs/StumpAddData.v,
+      reversed.  Part 12-13: the theorems; an example with two empty roots and a remap. *)
 From Utreexo Require Import Base.Hash Model.Utils Model.UtilsFast Model.Verify Model.MapRead
   Model.MapMut Spec.Forest Proofs.UtilsGeom Proofs.UtilsGeom2 Proofs.SpecBasics Proofs.StumpAdd
   Proofs.LayoutStruct Proofs.ProofPosSpec Proofs.MapReadSpec Proofs.MapMutAdd.
@@ -2059,6 +2107,13 @@ Section UInvDef.
   Qed.
 End UInvDef.
 Arguments UInv {H} HO s R m.
+Arguments u_n {H HO s R m} _.
+Arguments u_n63 {H HO s R m} _.
+Arguments u_rows {H HO s R m} _.
+Arguments u_T63 {H HO s R m} _.
+Arguments u_nodup {H HO s R m} _.
+Arguments u_leaves {H HO s R m} _.
+Arguments u_g {H HO s R m} _.
 
 Section UndoAdds.
   Variable H : Type.
@@ -2125,3 +2180,614 @@ Section UndoAdds.
     - intros x. rewrite HR'. rewrite <- in_rev. reflexivity.
   Qed.
 End UndoAdds.
+(** * Part 11: [getWrittenOverEmptyRoots] *)
+Section Destroyed.
+  Variable H : Type.
+  Variable HO : ops H.
+  Hypothesis HOK : ops_ok HO.
+  Hypothesis Hh2 : forall x y, op_eqb HO (op_hash2 HO x y) (op_empty HO) = false.
+  Notation entry := (StumpAdd.entry H).
+  Notation carry := (StumpAdd.carry H HO).
+  Notation erow := (@StumpAdd.erow H).
+  Notation isN := (StumpAddData.isN H).
+  Notation td_go := (StumpAddData.td_go H).
+
+  (** one chain of [rootsToDestory] on the emptiness flags (as [StumpAddData.rtd_chain_go]) *)
+  Lemma rtd_chainB_go (s : slots H) (R : nat) :
+    (R <= 63)%nat -> N.of_nat (length s) <= 2 ^ N.of_nat R ->
+    forall d h (l : list entry) fuel lo c,
+    (d < fuel)%nat -> (h + d <= 64)%nat -> N.of_nat (length s) < 2 ^ N.of_nat (h + d) ->
+    map erow l = filter (bit (N.of_nat (length s))) (seq h d) ->
+    (forall e, In e l -> In e (forest HO s)) ->
+    rtd_chainB fuel (N.of_nat (length s)) (N.of_nat h) (N.of_nat R) (map isN l)
+      = Some (td_go (N.of_nat (length s)) R fuel h l, map isN (fst (carry l h lo (Some c)))).
+  Proof.
+    intros HR HnR. set (n := N.of_nat (length s)) in *.
+    induction d as [|d IH]; intros h l fuel lo c Hf Hh Hn Hrows Hin.
+    - cbn [seq filter] in Hrows. apply map_eq_nil in Hrows. subst l.
+      destruct fuel as [|f]; [lia|].
+      cbn [rtd_chainB StumpAddData.td_go StumpAdd.carry map fst]. rewrite bit_test. rewrite Nat.add_0_r in Hn.
+      assert (N.testbit n (N.of_nat h) = false) as ->.
+      { rewrite <- (N.mod_small n (2 ^ N.of_nat h)) by exact Hn.
+        apply N.mod_pow2_bits_high. lia. }
+      reflexivity.
+    - destruct fuel as [|f]; [lia|]. cbn [seq filter] in Hrows. cbn [rtd_chainB StumpAddData.td_go].
+      rewrite bit_test. fold (bit n h). destruct (bit n h) eqn:Hb.
+      + destruct l as [|[[r1 lo1] t1] l]; [discriminate|]. cbn [map] in Hrows.
+        injection Hrows as Hr1 Hrows. unfold StumpAdd.erow in Hr1. cbn [fst] in Hr1. subst r1.
+        cbn [map]. rewrite add8_succ by lia. cbn [StumpAdd.carry]. rewrite Nat.eqb_refl.
+        replace (h + S d)%nat with (S h + d)%nat in Hn by lia.
+        assert (Hc : exists c', join HO t1 (Some c) = Some c').
+        { destruct t1 as [c1|]; cbn [join]; eexists; reflexivity. }
+        destruct Hc as [c' Hc']. rewrite Hc'.
+        rewrite (IH (S h) l f lo1 c' ltac:(lia) ltac:(lia) Hn Hrows (fun e He => Hin e (or_intror He))).
+        f_equal. f_equal. f_equal. unfold StumpAddData.isN. cbn [snd].
+        destruct t1 as [c1|]; [reflexivity|]. f_equal.
+        pose proof (root_node H HO s h lo1 None (Hin _ (or_introl eq_refl))) as (Hbit & _ & Ediv & _).
+        rewrite Ediv. fold n.
+        rewrite pos_gpos. apply rootPosition_gpos; [lia| |exact HnR].
+        apply (root_coord_valid n (N.of_nat h) (N.of_nat R) HnR Hbit).
+      + f_equal. f_equal. destruct l as [|[[r1 lo1] t1] l]; [reflexivity|].
+        cbn [StumpAdd.carry].
+        assert (Hne : r1 <> h).
+        { assert (Hin' : In r1 (filter (bit n) (seq (S h) d)))
+            by (rewrite <- Hrows; left; reflexivity).
+          apply filter_In in Hin' as [Hin' _]. apply in_seq in Hin'. lia. }
+        destruct (Nat.eqb_spec r1 h) as [Heq|_]; [contradiction|]. reflexivity.
+  Qed.
+
+  Lemma rtd_loopB_spec (R : nat) : (R <= 63)%nat ->
+    forall (adds : list H) (s : slots H),
+    N.of_nat (length s + length adds) <= 2 ^ N.of_nat R ->
+    rtd_loopB (length adds) (N.of_nat (length s)) (N.of_nat R) (map isN (rev (forest HO s)))
+    = Some (to_destroy HO R s adds).
+  Proof.
+    intros HR. induction adds as [|a adds IH]; intros s Hb; [reflexivity|].
+    cbn [length rtd_loopB to_destroy]. rewrite StumpAddData.trailing_destroyed_go. unfold num_leaves.
+    cbn [length] in Hb.
+    assert (HsR : N.of_nat (length s) <= 2 ^ N.of_nat R) by lia.
+    assert (H63 : N.of_nat (length s) <= 2 ^ 63).
+    { eapply N.le_trans; [exact HsR|]. apply N.pow_le_mono_r; lia. }
+    pose proof (StumpAddData.log2_le_63 _ H63) as Hlog.
+    pose proof (rtd_chainB_go s R HR HsR (S (Nat.log2 (length s))) 0 (rev (forest HO s)) 65
+                  (N.of_nat (length s)) (CLeaf a) ltac:(lia) ltac:(lia)) as Hch.
+    cbn [Nat.add] in Hch.
+    specialize (Hch ltac:(rewrite <- pow2_N; pose proof (forest_len H s); lia)
+                    (forest_rows H HO s)
+                    (fun e He => proj2 (in_rev _ _) He)).
+    change (N.of_nat 0) with 0 in Hch. rewrite Hch.
+    assert (Ea : add64 (N.of_nat (length s)) 1 = N.of_nat (length (s ++ [Some a]))).
+    { rewrite app_length. cbn [length]. unfold add64. rewrite wrap_small; [lia|].
+      rewrite W_eq. assert (2 ^ 63 < 2 ^ 64) by (apply UtilsGeom.pow2_lt; lia). lia. }
+    rewrite Ea.
+    pose proof (forest_snoc H HO s (Some a)) as Hsn. cbv zeta in Hsn.
+    change (compress HO 0 [Some a]) with (Some (CLeaf a)) in Hsn.
+    assert (Efl : false :: map isN (fst (carry (rev (forest HO s)) 0 (N.of_nat (length s)) (Some (CLeaf a))))
+                  = map isN (rev (forest HO (s ++ [Some a])))).
+    { rewrite Hsn. cbn [map]. rewrite StumpAddData.carry_some. reflexivity. }
+    rewrite Efl, IH; [reflexivity|]. rewrite app_length. cbn [length]. lia.
+  Qed.
+End Destroyed.
+Section ErpDestroyed.
+  Variable H : Type.
+  Variable HO : ops H.
+  Hypothesis HOK : ops_ok HO.
+  Hypothesis Hh2 : forall x y, op_eqb HO (op_hash2 HO x y) (op_empty HO) = false.
+  Variable T : N.
+  Hypothesis HT : T <= 63.
+  Notation entry := (StumpAdd.entry H).
+  Notation nones := (StumpAddData.nones H).
+  Notation chain_at := (StumpAddData.chain_at H).
+  Notation ecoord := (StumpAddData.ecoord H).
+
+  Definition gpT (c : nat * N) : N := gp T (fst c) (snd c).
+
+  Lemma al_low_bits (s : slots H) : forall j, al s j -> forall i, (i < j)%nat ->
+    N.testbit (N.of_nat (length s)) (N.of_nat i) = true.
+  Proof.
+    induction j as [|j IH]; intros Ha i Hi; [lia|]. destruct (al_S_inv H s j Ha) as [Ha' Hb].
+    destruct (Nat.eq_dec i j) as [->|Hne]; [exact Hb|apply (IH Ha'); lia].
+  Qed.
+
+  Lemma chain_al (s : slots H) : forall ch, chain_at (N.of_nat (length s)) 0 ch -> al s (length ch).
+  Proof.
+    induction ch as [|e ch IH] using rev_ind; intros Hc; [apply al_0|].
+    apply StumpAddData.chain_at_app in Hc as [Hc1 Hc2]. cbn [Nat.add] in Hc2.
+    destruct Hc2 as (_ & _ & Hb & _). rewrite app_length. cbn [length].
+    replace (length ch + 1)%nat with (S (length ch)) by lia. apply al_S; [exact (IH Hc1)|exact Hb].
+  Qed.
+
+  (** the empty roots of the chain, highest first *)
+  Lemma erpl_chain (s : slots H) : forall ch, chain_at (N.of_nat (length s)) 0 ch ->
+    (forall e, In e ch -> In e (forest HO s)) ->
+    erpl H HO T s (length ch) = rev (map gpT (nones ch)).
+  Proof.
+    induction ch as [|e ch IH] using rev_ind; intros Hc Hin; [reflexivity|].
+    pose proof (chain_al s _ Hc) as HaS.
+    apply StumpAddData.chain_at_app in Hc as [Hc1 Hc2]. cbn [Nat.add] in Hc2.
+    destruct Hc2 as (Hr & Hlo & Hb & _). rewrite app_length in *. cbn [length] in *.
+    replace (length ch + 1)%nat with (S (length ch)) in * by lia. cbn [erpl].
+    rewrite (IH Hc1 (fun e' He' => Hin e' (in_or_app _ _ _ (or_introl He')))).
+    rewrite StumpAddData.nones_app, map_app, rev_app_distr. f_equal.
+    destruct e as [[k lo] t]. unfold StumpAdd.erow, StumpAddData.elo in Hr, Hlo. cbn [fst snd] in Hr, Hlo. subst k.
+    assert (Hine : In (length ch, lo, t) (forest HO s)) by (apply Hin, in_or_app; right; left; reflexivity).
+    destruct (old_entry_unique H HO s (length ch) lo t HaS Hine) as [_ Et]. rewrite <- Et.
+    unfold StumpAddData.nones. cbn [flat_map snd]. destruct t as [c|]; [reflexivity|]. cbn [app map rev].
+    unfold gpT, StumpAddData.ecoord, StumpAdd.erow, StumpAddData.elo. cbn [fst snd]. f_equal. f_equal.
+    destruct (step_coords H s (length ch) HaS) as (E1 & _). unfold oR. rewrite E1, Hlo.
+    fold (p2 (length ch)). rewrite N.div_mul by (pose proof (p2_pos (length ch)); lia). reflexivity.
+  Qed.
+
+  Lemma lowrow_chain (s : slots H) ch : N.of_nat (length s) + 1 <= 2 ^ T ->
+    chain_at (N.of_nat (length s)) 0 ch -> bit (N.of_nat (length s)) (length ch) = false ->
+    lowrow H s = length ch.
+  Proof.
+    intros HnT Hc Hstop. destruct (lowrow_spec H T HT s HnT) as (Ha & Hb & _).
+    pose proof (chain_al s ch Hc) as Ha2. unfold bit in Hstop.
+    destruct (Nat.lt_trichotomy (lowrow H s) (length ch)) as [Hlt|[E|Hgt]]; [exfalso|exact E|exfalso].
+    - rewrite (al_low_bits s _ Ha2 _ Hlt) in Hb. discriminate.
+    - rewrite (al_low_bits s _ Ha _ Hgt) in Hstop. discriminate.
+  Qed.
+
+  Lemma erpR_snoc (s0 : slots H) a1 : forall r,
+    erpR H HO T s0 (r ++ [a1]) = erpR H HO T (s0 ++ [Some a1]) r ++ erpl H HO T s0 (lowrow H s0).
+  Proof.
+    induction r as [|a r IH].
+    - cbn [app erpR rev map]. rewrite !app_nil_r. reflexivity.
+    - cbn [app erpR]. rewrite IH, app_assoc. f_equal.
+      rewrite rev_app_distr. cbn [rev app map]. rewrite <- app_assoc. reflexivity.
+  Qed.
+
+  (** the list of [undoAdd] is the list of the destroyed roots, reversed *)
+  Theorem erpR_destroyed : forall adds (s0 : slots H),
+    N.of_nat (length s0) + N.of_nat (length adds) <= 2 ^ T ->
+    erpR H HO T s0 (rev adds) = rev (map gpT (StumpAddData.to_destroy_c H HO s0 adds)).
+  Proof.
+    induction adds as [|a t IH]; intros s0 Hfit; [reflexivity|]. cbn [length] in Hfit.
+    cbn [rev]. rewrite erpR_snoc.
+    assert (H63 : N.of_nat (length s0) <= 2 ^ 63).
+    { assert (2 ^ T <= 2 ^ 63) by (apply UtilsGeom.pow2_le; exact HT). lia. }
+    destruct (StumpAddData.step_data_ex H HO s0 a t H63) as (ch & un & SD).
+    rewrite (StumpAddData.sd_dest H HO s0 a t ch un SD), map_app, rev_app_distr.
+    rewrite IH by (rewrite app_length; cbn [length]; lia). f_equal.
+    pose proof (StumpAddData.sd_chain H HO _ _ _ _ _ SD) as Hc. unfold num_leaves in Hc.
+    rewrite (lowrow_chain s0 ch ltac:(lia) Hc (StumpAddData.sd_stop H HO _ _ _ _ _ SD)).
+    apply erpl_chain; [exact Hc|]. intros e He.
+    apply (StumpAddData.step_in_forest H HO _ _ _ _ _ e SD). apply in_or_app. left. exact He.
+  Qed.
+End ErpDestroyed.
+Section GwoLoop.
+  Variable H : Type.
+  Variable HO : ops H.
+  Variable A : Type.
+  Variables (isNA : A -> bool) (posf : A -> N).
+  Notation SSlt := (Sorted.StronglySorted N.lt).
+
+  Definition gwo_here (Dp : list N) (p : N) : list N := map (fun _ => p) (filter (fun d => d =? p) Dp).
+  Definition gwo_f (Dp : list N) (e : A) : list N := if isNA e then gwo_here Dp (posf e) else [].
+
+  Lemma gwo_loop_spec Dp : forall (F : list A) (pr : list H) (P0 : list N),
+    map (fun r => op_eqb HO r (op_empty HO)) pr = map isNA F ->
+    gwo_loop HO (length P0) pr (P0 ++ map posf F) Dp = Some (flat_map (gwo_f Dp) F).
+  Proof.
+    induction F as [|e F IH]; intros pr P0 Hfl.
+    - destruct pr; [reflexivity|discriminate].
+    - destruct pr as [|r pr]; [discriminate|]. cbn [map] in Hfl. injection Hfl as Hr Hfl.
+      cbn [gwo_loop flat_map map].
+      replace (P0 ++ posf e :: map posf F) with ((P0 ++ [posf e]) ++ map posf F) by (rewrite <- app_assoc; reflexivity).
+      assert (El : S (length P0) = length (P0 ++ [posf e])) by (rewrite app_length; cbn [length]; lia).
+      rewrite El, (IH pr (P0 ++ [posf e]) Hfl). rewrite Hr.
+      change (gwo_f Dp e) with (if isNA e then gwo_here Dp (posf e) else []).
+      destruct (isNA e); [|reflexivity].
+      rewrite <- app_assoc. cbn [app]. rewrite nth_error_app2 by lia. rewrite Nat.sub_diag. cbn [nth_error].
+      unfold gwo_here. destruct Dp as [|d Dp']; reflexivity.
+  Qed.
+
+  Lemma gwo_here_SSlt Dp p : SSlt Dp ->
+    (In p Dp -> gwo_here Dp p = [p]) /\ (~ In p Dp -> gwo_here Dp p = []).
+  Proof.
+    unfold gwo_here. induction 1 as [|d t Hs IH Hd]; [split; [intros []|reflexivity]|].
+    rewrite Forall_forall in Hd. cbn [filter]. destruct (N.eqb_spec d p) as [->|Hne].
+    - assert (Hnin : ~ In p t) by (intros C; specialize (Hd p C); lia).
+      cbn [map]. rewrite (proj2 IH Hnin). split; [reflexivity|]. intros C. exfalso. apply C. left. reflexivity.
+    - split.
+      + intros [C|C]; [contradiction|exact (proj1 IH C)].
+      + intros C. apply (proj2 IH). intros C'. apply C. right. exact C'.
+  Qed.
+
+  Lemma gwo_f_cases Dp e : SSlt Dp -> gwo_f Dp e = [] \/ (gwo_f Dp e = [posf e] /\ isNA e = true /\ In (posf e) Dp).
+  Proof.
+    intros Hs. unfold gwo_f. destruct (isNA e); [|left; reflexivity].
+    destruct (in_dec N.eq_dec (posf e) Dp) as [Hin|Hnin].
+    - right. split; [exact (proj1 (gwo_here_SSlt Dp (posf e) Hs) Hin)|auto].
+    - left. exact (proj2 (gwo_here_SSlt Dp (posf e) Hs) Hnin).
+  Qed.
+
+  Lemma gwo_asc Dp : SSlt Dp -> forall G, SSlt (map posf G) ->
+    (forall p, In p Dp -> exists e, In e G /\ isNA e = true /\ posf e = p) ->
+    flat_map (gwo_f Dp) G = Dp.
+  Proof.
+    intros Hs G HG Hsub.
+    assert (Hmem : forall G0 p, In p (flat_map (gwo_f Dp) G0) <-> exists e, In e G0 /\ isNA e = true /\ posf e = p /\ In p Dp).
+    { intros G0 p. rewrite in_flat_map. split.
+      - intros (e & He & Hp). destruct (gwo_f_cases Dp e Hs) as [E|(E & A1 & A2)]; rewrite E in Hp; [destruct Hp|].
+        destruct Hp as [<-|[]]. exists e. auto.
+      - intros (e & He & A1 & <- & A2). exists e. split; [exact He|].
+        unfold gwo_f. rewrite A1, (proj1 (gwo_here_SSlt Dp (posf e) Hs) A2). left. reflexivity. }
+    apply pps_SSlt_ext; [|exact Hs|].
+    - clear Hsub. induction G as [|g G IH]; [constructor|]. cbn [map] in HG.
+      apply Sorted.StronglySorted_inv in HG as [HG Hg]. rewrite Forall_forall in Hg. cbn [flat_map].
+      apply pps_SSlt_app; [|exact (IH HG)|].
+      + destruct (gwo_f_cases Dp g Hs) as [E|(E & _)]; rewrite E; [constructor|]. constructor; [constructor|constructor].
+      + intros x y Hx Hy. apply Hmem in Hy as (e & He & _ & <- & _).
+        destruct (gwo_f_cases Dp g Hs) as [E|(E & _)]; rewrite E in Hx; [destruct Hx|]. destruct Hx as [<-|[]].
+        apply Hg. apply in_map, He.
+    - intros p. rewrite Hmem. split; [intros (e & _ & _ & _ & A2); exact A2|].
+      intros Hp. destruct (Hsub p Hp) as (e & He & A1 & A2). exists e. auto.
+  Qed.
+
+  Lemma flat_map_rev_small (f : A -> list N) : (forall e, rev (f e) = f e) ->
+    forall G, flat_map f (rev G) = rev (flat_map f G).
+  Proof.
+    intros Hf. induction G as [|g G IH]; [reflexivity|]. cbn [rev flat_map].
+    rewrite flat_map_app, IH, rev_app_distr. cbn [flat_map]. rewrite app_nil_r, Hf. reflexivity.
+  Qed.
+
+  Theorem gwo_desc Dp (F : list A) : SSlt Dp -> SSlt (map posf (rev F)) ->
+    (forall p, In p Dp -> exists e, In e F /\ isNA e = true /\ posf e = p) ->
+    flat_map (gwo_f Dp) F = rev Dp.
+  Proof.
+    intros Hs HF Hsub. rewrite <- (rev_involutive F) at 1. rewrite flat_map_rev_small.
+    - f_equal. apply gwo_asc; [exact Hs|exact HF|]. intros p Hp. destruct (Hsub p Hp) as (e & He & B).
+      exists e. split; [apply -> in_rev; exact He|exact B].
+    - intros e. destruct (gwo_f_cases Dp e Hs) as [E|(E & _)]; rewrite E; reflexivity.
+  Qed.
+End GwoLoop.
+Section GwoSpec.
+  Variable H : Type.
+  Variable HO : ops H.
+  Hypothesis HOK : ops_ok HO.
+  Hypothesis Hh2 : forall x y, op_eqb HO (op_hash2 HO x y) (op_empty HO) = false.
+  Variable T : N.
+  Hypothesis HT : T <= 63.
+  Notation entry := (StumpAdd.entry H).
+  Notation isN := (StumpAddData.isN H).
+  Notation isE := (StumpAddData.isE H HO).
+  Notation ecoord := (StumpAddData.ecoord H).
+  Notation SSlt := (Sorted.StronglySorted N.lt).
+  Notation gT := (gpT T).
+
+  Definition cvalidT (c : nat * N) : Prop := N.of_nat (fst c) <= T /\ snd c < 2 ^ (T - N.of_nat (fst c)).
+
+  Lemma asc_later : forall D b x, StumpAddData.asc_from b D -> In x D -> (b <= fst x)%nat.
+  Proof.
+    induction D as [|y D IH]; intros b x Ha Hx; [destruct Hx|]. destruct Ha as [Hy Ha].
+    destruct Hx as [->|Hx]; [exact Hy|]. specialize (IH _ _ Ha Hx). lia.
+  Qed.
+
+  Lemma asc_SSlt : forall D b, StumpAddData.asc_from b D -> (forall d, In d D -> cvalidT d) -> SSlt (map gT D).
+  Proof.
+    induction D as [|d D IH]; intros b Ha Hv; [constructor|]. destruct Ha as [Hb Ha]. cbn [map].
+    constructor; [apply (IH _ Ha); intros x Hx; apply Hv; right; exact Hx|].
+    rewrite Forall_forall. intros p Hp. apply in_map_iff in Hp as (x & <- & Hx).
+    pose proof (asc_later D _ x Ha Hx) as Hlt.
+    destruct (Hv d (or_introl eq_refl)) as [A B]. destruct (Hv x (or_intror Hx)) as [A' B'].
+    unfold gpT, gp. apply gpos_row_mono; lia.
+  Qed.
+
+  Lemma asc_from_rows (f : nat -> bool) : forall m b (C : list (nat * N)),
+    map fst C = filter f (seq b m) -> StumpAddData.asc_from b C.
+  Proof.
+    induction m as [|m IH]; intros b C E.
+    - cbn in E. apply map_eq_nil in E. subst C. exact I.
+    - cbn [seq filter] in E. destruct (f b).
+      + destruct C as [|c C]; [discriminate|]. cbn [map] in E. injection E as Ec E.
+        split; [lia|]. rewrite Ec. exact (IH _ _ E).
+      + apply (StumpAddData.asc_from_weaken C (S b)); [lia|exact (IH _ _ E)].
+  Qed.
+
+  Variable s0 : slots H.
+  Hypothesis HnT : N.of_nat (length s0) <= 2 ^ T.
+
+  Lemma entry_validT e : In e (forest HO s0) -> cvalidT (ecoord e).
+  Proof.
+    intros He. pose proof (StumpAddData.ecoord_valid H HO (N.to_nat T) s0 e ltac:(rewrite N2Nat.id; exact HnT) He) as [A B].
+    rewrite N2Nat.id in B. split; [lia|exact B].
+  Qed.
+
+  Lemma posE_ecoord (e : entry) : posE H T e = gT (ecoord e).
+  Proof. reflexivity. Qed.
+
+  Lemma forest_pos_sorted : SSlt (map (posE H T) (rev (forest HO s0))).
+  Proof.
+    assert (E : map (posE H T) (rev (forest HO s0)) = map gT (map ecoord (rev (forest HO s0)))).
+    { rewrite map_map. reflexivity. }
+    rewrite E. apply (asc_SSlt _ 0%nat).
+    - apply (asc_from_rows (bit (N.of_nat (length s0))) (S (Nat.log2 (length s0)))).
+      rewrite map_map. exact (forest_rows H HO s0).
+    - intros d Hd. apply in_map_iff in Hd as (e & <- & He). apply entry_validT. apply in_rev. exact He.
+  Qed.
+
+  Hypothesis Hlive : StumpAdd.live_ok H HO s0.
+
+  Lemma roots_flags : map (fun r => op_eqb HO r (op_empty HO)) (roots HO s0) = map isN (forest HO s0).
+  Proof.
+    pose proof (StumpAddData.roots_isE H HO HOK s0 Hh2 Hlive) as E. rewrite !map_rev in E.
+    apply (f_equal (@rev bool)) in E. rewrite !rev_involutive in E. exact E.
+  Qed.
+
+  (** the destroyed roots, translated to the allocated rows *)
+  Lemma destroyed_translate (R : nat) (D : list (nat * N)) : (R <= 63)%nat ->
+    (forall d, In d D -> StumpAddData.cvalid R d /\ cvalidT d) ->
+    (if N.of_nat R =? T then map (StumpAddData.cpos R) D
+     else translatePositions (map (StumpAddData.cpos R) D) (N.of_nat R) T) = map gT D.
+  Proof.
+    intros HR Hv. destruct (N.eqb_spec (N.of_nat R) T) as [E|E].
+    - apply map_ext. intros d. unfold StumpAddData.cpos, gpT, gp. rewrite pos_gpos, E. reflexivity.
+    - unfold translatePositions. rewrite map_map. apply map_ext_in. intros d Hd.
+      destruct (Hv d Hd) as [[A B] [A' B']]. unfold StumpAddData.cpos, gpT, gp. rewrite pos_gpos.
+      apply translatePos_gpos; try lia; assumption.
+  Qed.
+
+  Theorem gwo_adds (adds : list H) : N.of_nat (length s0) + N.of_nat (length adds) <= 2 ^ T ->
+    getWrittenOverEmptyRoots HO (N.of_nat (length s0) + N.of_nat (length adds)) T (N.of_nat (length adds)) []
+      (roots HO s0) = Some (erpR H HO T s0 (rev adds)).
+  Proof.
+    intros Hfit. set (n0 := N.of_nat (length s0)) in *. set (k := N.of_nat (length adds)) in *.
+    assert (H63 : n0 + k <= 2 ^ 63).
+    { assert (2 ^ T <= 2 ^ 63) by (apply UtilsGeom.pow2_le; exact HT). lia. }
+    assert (HW : n0 + k < W).
+    { rewrite W_eq. assert (2 ^ 63 < 2 ^ 64) by (apply UtilsGeom.pow2_lt; lia). lia. }
+    unfold getWrittenOverEmptyRoots.
+    assert (Esub : sub64 (n0 + k) k = n0) by (rewrite sub64_small; lia). rewrite Esub.
+    assert (Egr : getRootsAfterDel HO (n0 + k) T k [] (RootPositions n0 T) (roots HO s0) = Some (roots HO s0)).
+    { unfold getRootsAfterDel. change (sortN []) with (@nil N). reflexivity. }
+    rewrite Egr.
+    set (R := rows_of (n0 + k)).
+    assert (ER : TreeRows (n0 + k) = N.of_nat R) by (unfold R; symmetry; apply StumpAddData.rows_of_TreeRows).
+    assert (HR : (R <= 63)%nat).
+    { assert (N.of_nat R <= 63); [|lia]. rewrite <- ER. apply TreeRows_le_63. exact H63. }
+    assert (HnR : N.of_nat (length s0 + length adds) <= 2 ^ N.of_nat R).
+    { rewrite <- ER. replace (N.of_nat (length s0 + length adds)) with (n0 + k) by (unfold n0, k; lia).
+      apply TreeRows_upper. }
+    destruct (StumpAddData.to_destroy_struct H HO Hh2 R HR adds s0 HnR) as [Hasc Hmem].
+    set (D := StumpAddData.to_destroy_c H HO s0 adds) in *.
+    assert (Hd0 : rootsToDestroyB HO k n0 (roots HO s0) = Some (map (StumpAddData.cpos R) D)).
+    { unfold rootsToDestroyB. rewrite roots_flags.
+      destruct (existsb (fun b => b) (map isN (forest HO s0))) eqn:Eex.
+      - unfold k. rewrite Nat2N.id. fold k.
+        assert (Ea : add64 n0 k = n0 + k) by (unfold add64; apply wrap_small; exact HW).
+        rewrite Ea, ER, <- map_rev. unfold n0.
+        etransitivity; [exact (rtd_loopB_spec H HO Hh2 R HR adds s0 HnR)|].
+        rewrite StumpAddData.to_destroy_coords. reflexivity.
+      - assert (ED : D = []).
+        { destruct D as [|d D']; [reflexivity|exfalso].
+          destruct (Hmem d (or_introl eq_refl)) as [(e & He & Hn & _) _].
+          assert (Ht : existsb (fun b => b) (map isN (forest HO s0)) = true).
+          { apply existsb_exists. exists true. split; [|reflexivity]. apply in_map_iff. exists e.
+            split; [unfold StumpAddData.isN; rewrite Hn; reflexivity|exact He]. }
+          congruence. }
+        rewrite ED. reflexivity. }
+    rewrite Hd0, ER.
+    assert (Hval : forall d, In d D -> StumpAddData.cvalid R d /\ cvalidT d).
+    { intros d Hd. destruct (Hmem d Hd) as [(e & He & _ & ->) _]. split.
+      - apply (StumpAddData.ecoord_valid H HO R s0 e); [lia|exact He].
+      - exact (entry_validT e He). }
+    rewrite (destroyed_translate R D HR Hval).
+    replace (RootPositions n0 T) with (map (posE H T) (forest HO s0)) by (symmetry; exact (RootPositions_forest H HO T HT s0 HnT)).
+    etransitivity; [exact (gwo_loop_spec H HO entry isN (posE H T) (map gT D) (forest HO s0) (roots HO s0) [] roots_flags)|].
+    f_equal. rewrite (erpR_destroyed H HO Hh2 T HT adds s0 Hfit). fold D.
+    apply gwo_desc.
+    - apply (asc_SSlt D 0%nat Hasc). intros d Hd. exact (proj2 (Hval d Hd)).
+    - exact forest_pos_sorted.
+    - intros p Hp. apply in_map_iff in Hp as (d & <- & Hd). destruct (Hmem d Hd) as [(e & He & Hn & ->) _].
+      exists e. split; [exact He|]. split; [unfold StumpAddData.isN; rewrite Hn; reflexivity|reflexivity].
+  Qed.
+End GwoSpec.
+(** * Part 12: [Undo] of a block of additions; any depth *)
+Section UndoAddsFinal.
+  Variable H : Type.
+  Variable HO : ops H.
+  Hypothesis HOK : ops_ok HO.
+  Hypothesis Hh2 : forall x y, op_eqb HO (op_hash2 HO x y) (op_empty HO) = false.
+
+  (** G1: undoing a block that only added leaves.  [R2] = [R1] without the added leaves. *)
+  Theorem undo_adds (s0 : slots H) (adds : list H) (R1 : list H) (m1 : mstate H) :
+    UInv HO (s0 ++ map Some adds) R1 m1 ->
+    exists m2 R2, mm_undo HO m1 (N.of_nat (length adds)) [] [] [] (roots HO s0) = Some m2 /\
+      UInv HO s0 R2 m2 /\ (forall x, In x R2 <-> In x R1 /\ ~ In x adds) /\
+      ms_n m2 = N.of_nat (length s0) /\ ms_total m2 = ms_total m1 /\ ms_full m2 = ms_full m1.
+  Proof.
+    intros U. apply (undo_adds_gen H HO HOK Hh2 s0 adds R1 m1 U).
+    pose proof (u_n U) as Un. unfold num_leaves in Un. rewrite app_length, map_length in Un.
+    assert (HnT : N.of_nat (length s0) + N.of_nat (length adds) <= 2 ^ ms_total m1).
+    { apply TreeRows_le_iff. pose proof (u_rows U) as Hr. rewrite Un in Hr.
+      replace (N.of_nat (length s0) + N.of_nat (length adds)) with (N.of_nat (length s0 + length adds)) by lia. exact Hr. }
+    replace (ms_n m1) with (N.of_nat (length s0) + N.of_nat (length adds)) by lia.
+    apply (gwo_adds H HO HOK Hh2 (ms_total m1) (u_T63 U) s0 ltac:(lia)); [|exact HnT].
+    intros h Hh. apply (u_leaves U). apply in_or_app. left. exact Hh.
+  Qed.
+
+  (** the bridge from the invariant of Proofs/MapMutAdd.v *)
+  Lemma AddInv_UInv (s : slots H) R m : MapMutAdd.Inv H HO s R m ->
+    (forall h, In (Some h) s -> forall x y, h <> op_hash2 HO x y) -> UInv HO s R m.
+  Proof.
+    intros I Hnn. destruct I as [A B C D E F G _]. constructor; try assumption.
+    intros h Hh. split; [exact (F h Hh)|exact (Hnn h Hh)].
+  Qed.
+
+  (** G4 (blocks of additions): undoing the last [k] blocks, newest first, restores the state
+      [k] blocks ago *)
+  Fixpoint apply_adds (s : slots H) (bs : list (list H)) : slots H :=
+    match bs with
+    | [] => s
+    | b :: r => apply_adds (s ++ map Some b) r
+    end.
+  Fixpoint undo_add_blocks (s : slots H) (bs : list (list H)) (m : mstate H) : option (mstate H) :=
+    match bs with
+    | [] => Some m
+    | b :: r =>
+        match undo_add_blocks (s ++ map Some b) r m with
+        | Some m' => mm_undo HO m' (N.of_nat (length b)) [] [] [] (roots HO s)
+        | None => None
+        end
+    end.
+
+  Theorem undo_adds_depth : forall bs (s : slots H) (R : list H) (m : mstate H),
+    UInv HO (apply_adds s bs) R m ->
+    exists m' R', undo_add_blocks s bs m = Some m' /\ UInv HO s R' m' /\
+      (forall x, In x R' <-> In x R /\ ~ In x (concat bs)) /\
+      ms_n m' = N.of_nat (length s) /\ ms_total m' = ms_total m /\ ms_full m' = ms_full m.
+  Proof.
+    induction bs as [|b r IH]; intros s R m U.
+    - exists m, R. cbn [undo_add_blocks concat apply_adds] in *. split; [reflexivity|]. split; [exact U|].
+      split; [intros x; cbn [In]; tauto|]. split; [exact (u_n U)|auto].
+    - cbn [apply_adds] in U. destruct (IH _ R m U) as (m1 & R1 & E1 & U1 & HR1 & _ & ET1 & EF1).
+      destruct (undo_adds s b R1 m1 U1) as (m2 & R2 & E2 & U2 & HR2 & En2 & ET2 & EF2).
+      exists m2, R2. cbn [undo_add_blocks]. rewrite E1. split; [exact E2|]. split; [exact U2|].
+      split; [|split; [exact En2|split; congruence]].
+      intros x. rewrite HR2, HR1. cbn [concat]. rewrite in_app_iff. tauto.
+  Qed.
+
+  (** the observable consequences: after the undo the read side answers as before the block *)
+  Corollary undo_adds_consistent (s0 : slots H) (adds : list H) (R1 : list H) (m1 : mstate H) :
+    UInv HO (s0 ++ map Some adds) R1 m1 ->
+    exists m2 R2, mm_undo HO m1 (N.of_nat (length adds)) [] [] [] (roots HO s0) = Some m2 /\
+      consistent HO s0 R2 m2 /\ (forall x, In x R2 <-> In x R1 /\ ~ In x adds) /\
+      getRoots HO m2 = roots HO s0 /\ ms_n m2 = num_leaves s0.
+  Proof.
+    intros U. destruct (undo_adds s0 adds R1 m1 U) as (m2 & R2 & E & U2 & HR & En & _).
+    pose proof (UInv_consistent H HO HOK s0 R2 m2 U2) as Hc.
+    exists m2, R2. split; [exact E|]. split; [exact Hc|]. split; [exact HR|].
+    split; [exact (map_getroots H HO s0 R2 m2 Hc)|exact En].
+  Qed.
+End UndoAddsFinal.
+(** * Part 13: a block of additions applied with [Modify] and undone; an example *)
+Section ModifyUndo.
+  Variable H : Type.
+  Variable HO : ops H.
+  Hypothesis HOK : ops_ok HO.
+  Hypothesis Hh2 : forall x y, op_eqb HO (op_hash2 HO x y) (op_empty HO) = false.
+
+  Lemma Rnext_fold_In (full : bool) : forall (adds : list (H * bool)) (R : list H) x,
+    In x (fold_left (Rnext H full) adds R) -> In x R \/ In x (map fst adds).
+  Proof.
+    induction adds as [|e adds IH]; intros R x Hx; [left; exact Hx|]. cbn [fold_left map In] in *.
+    destruct (IH _ _ Hx) as [A|A]; [|right; right; exact A]. unfold Rnext in A.
+    destruct (full || snd e); [|left; exact A]. apply in_app_or in A as [A|[A|[]]]; [left; exact A|right; left; exact A].
+  Qed.
+
+  Lemma Rnext_fold_mono (full : bool) : forall (adds : list (H * bool)) (R : list H) x,
+    In x R -> In x (fold_left (Rnext H full) adds R).
+  Proof.
+    induction adds as [|e adds IH]; intros R x Hx; [exact Hx|]. cbn [fold_left]. apply IH. unfold Rnext.
+    destruct (full || snd e); [apply in_or_app; left; exact Hx|exact Hx].
+  Qed.
+
+  Lemma UInv_ext (s : slots H) (R R' : list H) (m : mstate H) : (forall x, In x R <-> In x R') ->
+    UInv HO s R m -> UInv HO s R' m.
+  Proof.
+    intros HR [A B C D E F G]. constructor; try assumption.
+    assert (HnT : N.of_nat (length s) <= 2 ^ ms_total m).
+    { apply TreeRows_le_iff. unfold num_leaves in A. rewrite <- A. exact C. }
+    pose proof (GInv_WInvX H _ _ R _ _ _ (Vlay_ok H HO s (ms_total m) HnT D) G) as W.
+    apply (WInvX_GInv_lay H HO s R' (ms_total m)).
+    - apply (WInvX_ext H (Vlay HO s) (Vlay HO s) (RTlay HO s) (RTlay HO s) R R' (ms_total m) noX noX); try reflexivity; assumption.
+    - intros r o Hr. exact (g_roots G Hr).
+  Qed.
+
+  (** C06 for a block of additions, from the state before the block: [Modify] then [Undo] with
+      the block's addition count and the previous roots gives a forest that is consistent with the
+      reference forest BEFORE the block, remembering exactly what was remembered before *)
+  Theorem modify_undo_adds (s : slots H) (R : list H) (m : mstate H) (adds : list (H * bool)) :
+    MapMutAdd.Inv H HO s R m ->
+    N.of_nat (length s) + N.of_nat (length adds) <= 2 ^ 63 ->
+    adds_ok H HO s R (ms_full m) adds ->
+    (forall h, In (Some h) (s ++ map Some (map fst adds)) -> forall x y, h <> op_hash2 HO x y) ->
+    exists m1 m2, mm_modify HO m adds [] [] [] = Some m1 /\
+      mm_undo HO m1 (N.of_nat (length adds)) [] [] [] (roots HO s) = Some m2 /\
+      consistent HO s R m2 /\ getRoots HO m2 = roots HO s /\ ms_n m2 = ms_n m /\
+      ms_total m <= ms_total m2 /\ ms_full m2 = ms_full m.
+  Proof.
+    intros I Hfit Hok Hnn.
+    destruct (modify_adds_gen H HO HOK Hh2 adds s R m I Hfit Hok) as (m1 & E1 & I1 & HT1 & F1).
+    pose proof (AddInv_UInv H HO _ _ _ I1 Hnn) as U1.
+    destruct (undo_adds H HO HOK Hh2 s (map fst adds) _ m1 U1) as (m2 & R2 & E2 & U2 & HR2 & En2 & ET2 & EF2).
+    rewrite map_length in E2.
+    exists m1, m2. split; [exact E1|]. split; [exact E2|].
+    assert (HRR : forall x, In x R2 <-> In x R).
+    { intros x. rewrite HR2. split.
+      - intros [A B]. destruct (Rnext_fold_In _ _ _ _ A) as [C|C]; [exact C|contradiction].
+      - intros Hx. split; [apply Rnext_fold_mono; exact Hx|]. intros Hin.
+        (* the added leaves are fresh, the remembered leaves are live *)
+        pose proof (MapMutAdd.Inv_consistent H HO HOK s R m I) as Hc. pose proof (cs_R_live Hc x Hx) as Hlive.
+        clear - Hok Hin Hlive. revert s R Hok Hlive. induction adds as [|e adds IH]; intros s R Hok Hlive; [destruct Hin|].
+        cbn [adds_ok] in Hok. destruct Hok as (Hfresh & _ & _ & Hrest). cbn [map In] in Hin.
+        destruct Hin as [Ee|Hin]; [rewrite <- Ee in Hlive; exact (Hfresh Hlive)|].
+        apply (IH Hin _ _ Hrest). apply in_or_app. left. exact Hlive. }
+    pose proof (UInv_ext s R2 R m2 HRR U2) as U3.
+    pose proof (UInv_consistent H HO HOK s R m2 U3) as Hc.
+    split; [exact Hc|]. split; [exact (map_getroots H HO s R m2 Hc)|].
+    pose proof (MapMutAdd.inv_n H HO s R m I) as En. unfold num_leaves in En.
+    split; [congruence|]. split; [lia|congruence].
+  Qed.
+End ModifyUndo.
+(** Example: seven slots, the last three dead: the trees of rows 1 and 0 are empty roots; the leaf
+    [Atom 2] is remembered.  Two leaves are added (the first is written over both empty roots and
+    joined with the tree of row 2, the forest is re-mapped to 4 rows), and the block is undone. *)
+From Utreexo Require Import Spec.Term Proofs.MapMutPrune Proofs.MapMutUnify.
+
+Definition mmu_ex_s : slots term := [Some (Atom 1); Some (Atom 2); Some (Atom 3); Some (Atom 4); None; None; None].
+Definition mmu_ex_m : mstate term :=
+  mkM [(12, (Node (Node (Atom 1) (Atom 2)) (Node (Atom 3) (Atom 4)), false)); (10, (Zero, false));
+       (6, (Zero, false)); (1, (Atom 2, true)); (0, (Atom 1, false)); (9, (Node (Atom 3) (Atom 4), false))]
+      [(Atom 2, 1)] 7 3 false.
+Definition mmu_ex_adds : list (term * bool) := [(Atom 8, true); (Atom 9, false)].
+
+Lemma mmu_ex_Inv : MapMutAdd.Inv term term_ops mmu_ex_s [Atom 2] mmu_ex_m.
+Proof.
+  apply (prune_to_Inv term term_ops term_ops_ok).
+  - apply (MapMutPrune.Invb_sound term term_ops term_ops_ok). vm_compute. reflexivity.
+  - intros _. apply (MapMutPrune.tidyb_sound term term_ops term_ops_ok). vm_compute. reflexivity.
+  - unfold keys_nodup. cbn. repeat constructor; cbn; intuition discriminate.
+  - cbn. repeat constructor; cbn; intuition discriminate.
+  - intros h Hin. cbn in Hin. repeat (destruct Hin as [E|Hin]; [try discriminate; injection E as <-; reflexivity|]). destruct Hin.
+Qed.
+
+Example mmu_ex_undo :
+  exists m1 m2, mm_modify term_ops mmu_ex_m mmu_ex_adds [] [] [] = Some m1 /\
+    mm_undo term_ops m1 2 [] [] [] (roots term_ops mmu_ex_s) = Some m2 /\
+    consistent term_ops mmu_ex_s [Atom 2] m2 /\ getRoots term_ops m2 = roots term_ops mmu_ex_s /\
+    ms_n m2 = 7.
+Proof.
+  destruct (modify_undo_adds term term_ops term_ops_ok term_node_nonzero mmu_ex_s [Atom 2] mmu_ex_m mmu_ex_adds mmu_ex_Inv)
+    as (m1 & m2 & E1 & E2 & Hc & Hr & En & _).
+  - cbn. discriminate.
+  - apply (adds_okb_sound term term_ops term_ops_ok). vm_compute. reflexivity.
+  - intros h Hin x y. cbn in Hin.
+    repeat (destruct Hin as [E|Hin]; [try discriminate; injection E as <-; discriminate|]). destruct Hin.
+  - exists m1, m2. auto.
+Qed.
+
+(** the computed states: after the block (4 rows) and after the undo *)
+Example mmu_ex_run :
+  match mm_modify term_ops mmu_ex_m mmu_ex_adds [] [] [] with
+  | Some m1 => ms_total m1 = 4 /\ ms_n m1 = 9 /\
+      match mm_undo term_ops m1 2 [] [] [] (roots term_ops mmu_ex_s) with
+      | Some m2 => consistentb term_ops mmu_ex_s [Atom 2] m2 = true /\ ms_total m2 = 4
+      | None => False
+      end
+  | None => False
+  end.
+Proof. vm_compute. auto. Qed.
+
+Print Assumptions placeEmptyRoot_spec.
+Print Assumptions pulldown_WInvX.
+Print Assumptions usa_loop_ok.
+Print Assumptions undoAdd_loop_ok.
+Print Assumptions gwo_adds.
+Print Assumptions undo_adds.
+Print Assumptions undo_adds_depth.
+Print Assumptions undo_adds_consistent.
+Print Assumptions modify_undo_adds.
+Print Assumptions mmu_ex_undo.
